@@ -3,6 +3,7 @@ package props
 import (
 	"fmt"
 	"os"
+	"strings"
 
 	"github.com/streamingfast/substreams/manifest"
 	pbsubstreams "github.com/streamingfast/substreams/pb/sf/substreams/v1"
@@ -126,6 +127,13 @@ func runCompiledScenario(c *fw.Case, prop string) {
 			return
 		}
 		if res.Err != nil {
+			if msg := res.Err.Error(); strings.Contains(msg, "assert_set_sum_store_deltas_0") && strings.Contains(msg, `left: \"sum\"`) && strings.Contains(msg, `right: \"set\"`) {
+				// recorded known finding, with its own signature: merging a partial set_sum value tagged "set:" rewrites the tag
+				// to "sum:" in the full store, while a sequential execution keeps "set:" once a key was set; a deltas-mode reader of
+				// the raw value (this test module of the repository) sees another prefix right after a segment boundary
+				c.Violation(prop+"/compiled/set-sum-tag-lost-on-merge", "compiled package: the repository's own assertion module on set_sum deltas fails in a segment job although the sequential run succeeds: "+msg, s.witnessCompiled(extra))
+				return
+			}
 			c.Violation(prop+"/compiled/request-failed/"+fw.NormalizeMsg(res.Err.Error()), "compiled package: a request failed although the sequential reference run succeeds: "+res.Err.Error(), s.witnessCompiled(extra))
 			return
 		}
